@@ -6,7 +6,6 @@ import (
 	"fmt"
 	"io"
 	"log/slog"
-	"maps"
 	"os"
 	"path/filepath"
 	"reservoir/config"
@@ -56,8 +55,14 @@ func NewFileCache[MetadataT any](cfg *config.Config, rootDir string, maxCacheSiz
 
 	c.janitor = newCacheJanitor(cfg, cleanupInterval, cacheFunctions[MetadataT]{
 		cacheIterator: func(yield func(key CacheKey, metadata *EntryMetadata[MetadataT]) bool) {
+			// The janitor works on copies of the metadata, taken under the map lock: the stored metadata
+			// keeps being updated (LastAccess, Expires) by requests, which hold the map lock while they do.
 			c.mu.RLock()
-			snapshot := maps.Clone(c.entriesMetadata)
+			snapshot := make(map[CacheKey]*EntryMetadata[MetadataT], len(c.entriesMetadata))
+			for key, metadata := range c.entriesMetadata {
+				metaCopy := *metadata
+				snapshot[key] = &metaCopy
+			}
 			c.mu.RUnlock()
 
 			for key, metadata := range snapshot {
@@ -121,6 +126,14 @@ func (c *FileCache[MetadataT]) ensureRemove(key CacheKey) error {
 	return nil
 }
 
+// Records an access. Stored metadata is written with the map lock held (in addition to the key's lock),
+// because the janitor reads the metadata of all entries under the map lock, without the key locks.
+func (c *FileCache[MetadataT]) touch(meta *EntryMetadata[MetadataT]) {
+	c.mu.Lock()
+	meta.LastAccess = time.Now()
+	c.mu.Unlock()
+}
+
 func (c *FileCache[MetadataT]) Get(key CacheKey) (*Entry[MetadataT], error) {
 	lock := getLock(c.locks, key)
 	lock.Lock() // Upgraded from RLock to Lock to prevent data race on LastAccess
@@ -150,7 +163,7 @@ func (c *FileCache[MetadataT]) Get(key CacheKey) (*Entry[MetadataT], error) {
 		stale = true // The entry is stale if the expiration time is in the past
 	}
 
-	entryMeta.LastAccess = time.Now()
+	c.touch(entryMeta)
 
 	metrics.Global.Cache.CacheHits.Increment()
 	slog.Debug("Successful cache hit", "key", key.Hex)
@@ -284,8 +297,10 @@ func (c *FileCache[MetadataT]) UpdateMetadata(key CacheKey, modifier func(*Entry
 		return fmt.Errorf("%w: cache entry for key '%s' does not exist", ErrCacheEntryNotFound, key.Hex)
 	}
 
+	c.mu.Lock() // see touch
 	modifier(meta)
 	meta.LastAccess = time.Now()
+	c.mu.Unlock()
 
 	metrics.Global.Cache.CacheHits.Increment()
 
@@ -315,7 +330,7 @@ func (c *FileCache[MetadataT]) GetMetadata(key CacheKey) (meta *EntryMetadata[Me
 		stale = true // The entry is stale if the expiration time is in the past
 	}
 
-	metaPtr.LastAccess = time.Now() // Now safe because we have a full Lock
+	c.touch(metaPtr)
 
 	metaCopy := *metaPtr // the caller gets its own copy, see Get
 
